@@ -185,6 +185,14 @@ int flush_pubsub_msgs(void *data, const char *key, void *value) {
         M_WARN("Failed to create flushing queue.\n");
     }
 
+    if (!stopping_mod && flushed && m_mod_is(mod, M_MOD_RUNNING)) {
+        /* Events still held back for batching were received before anything that is left in the pipe: keep the order */
+        void *evt;
+        while ((evt = m_queue_dequeue(mod->batch.events))) {
+            m_queue_enqueue(flushed, evt);
+        }
+    }
+
     while (mod->pubsub_fd[0] != -1 &&
         read(mod->pubsub_fd[0], &mm, sizeof(ps_priv_t *)) == sizeof(ps_priv_t *)) {
         /*
